@@ -100,6 +100,59 @@ func registerIntrinsics(e *Engine) {
 		return nil
 	}
 	I["strings.TrimSpace"] = intrTrimSpace
+	I["bytes.TrimSpace"] = func(e *Engine, st *State, c ssa.CallInstruction, a []Value) []*State {
+		sl := a[0].(SliceV)
+		if sl.LenT != nil {
+			e.fail("bytes.TrimSpace on a symbolic-length slice")
+		}
+		var bs []*Term
+		for _, v := range e.sliceElems(st, sl) {
+			bs = append(bs, v.(*Term))
+		}
+		// reuse the string version and map the result back to a sub-slice
+		tt := e.TT
+		n := len(bs)
+		sp := make([]*Term, n)
+		for i, b := range bs {
+			sp[i] = e.isSpaceASCII(b)
+		}
+		var out []*State
+		emit := func(cond *Term, i, j int) {
+			if cond == tt.False || !e.feasible(st, cond) {
+				return
+			}
+			ch := e.Clone(st)
+			ch.addPC(cond)
+			if i == j {
+				e.setResult(ch, c, SliceV{Arr: -1})
+			} else {
+				e.setResult(ch, c, SliceV{Arr: sl.Arr, Off: sl.Off + i, Len: j - i, Cap: sl.Cap - i})
+			}
+			out = append(out, ch)
+		}
+		for i := 0; i <= n; i++ {
+			var pre []*Term
+			for k := 0; k < i; k++ {
+				pre = append(pre, sp[k])
+			}
+			if i == n {
+				emit(tt.And(pre...), 0, 0)
+				continue
+			}
+			pre = append(pre, tt.Not(sp[i]))
+			for j := n; j > i; j-- {
+				cs := append([]*Term(nil), pre...)
+				for k := j; k < n; k++ {
+					cs = append(cs, sp[k])
+				}
+				cs = append(cs, tt.Not(sp[j-1]))
+				emit(tt.And(cs...), i, j)
+			}
+		}
+		st.done = true
+		e.Stats.Forks += len(out)
+		return out
+	}
 	I["strings.Split"] = func(e *Engine, st *State, c ssa.CallInstruction, a []Value) []*State {
 		return e.strSplit(st, c, a[0].(StrV), a[1].(StrV), -1)
 	}
